@@ -104,7 +104,7 @@ def _run(ctx):
     r5 = ctx.inst("C12.R5", "reverse quote wiring: compute(offer reserve = other pool, ask reserve = named pool, ask amount, rate); response mapping", floor=7)
     r3 = ctx.inst("C12.R3", "router forward simulation folds the pair Simulation queries over the route in order", floor=5)
     r4 = ctx.inst("C12.R4", "router reverse simulation folds the pair ReverseSimulation queries over the reversed route", floor=5)
-    r6 = ctx.inst("C12.R6", "execution prices what was delivered: hook amount == received amount, native funds == declared (shared with C02.R1/R5) and the swap-side wiring (C01.R1)", floor=8)
+    r6 = ctx.inst("C12.R6", "execution prices what was delivered: hook amount == received amount, hook caller is a pair token and the named asset is that token, native funds == declared (shared with C02.R1/R2/R3/R5) and the swap-side wiring (C01.R1)", floor=8)
     try:
         pr = roles.PairRoles(P)
         pricing, pbb = numeric.pricing_fn(ctx, pr)
@@ -194,7 +194,9 @@ def _run(ctx):
             continue
         check_fold(ctx, inst, fold, qname, field, first == "ask")
     # ---- R6 ---------------------------------------------------------------------------------------------------------
-    c01.import_instances(ctx, r6, c02, {"C02.R1", "C02.R5"}, "C12.R6")
+    # C02.R2 / C02.R3: the asset a hook names is the token that delivered it — otherwise the executing swap subtracts the
+    # offer from a pool that never received it and prices on reserves the quote did not see (seeded/C12-m23)
+    c01.import_instances(ctx, r6, c02, {"C02.R1", "C02.R2", "C02.R3", "C02.R5"}, "C12.R6")
     sub = type(ctx)(ctx.prop, P)
     c01.run(sub)
     for i in sub.instances:
